@@ -83,6 +83,8 @@ struct ObjCfg {
   double x0[MAXN], lo[MAXN], hi[MAXN];
   bool has[MAXN];
   bool ownBox = true;           // the objective's own parameters carry the constraints (otherwise only the list given to init())
+  bool cachedDeriv = false;     // peer variant: derivatives are tabulated at every setParameters/parameter change WHILE they are enabled and read back from the table
+                                // (the behaviour of the library's own numerical-derivative wrappers); the default variant computes them on demand
   bool anyBox() const { for (int i = 0; i < n; ++i) if (has[i]) return true; return false; }
 };
 
@@ -94,6 +96,7 @@ ObjCfg buildCfg(const Plan& p) {
   o.n = static_cast<int>(std::max(1L, std::min<long>(MAXN, p.geti("n", 1))));
   o.c = p.getd("c");
   o.ownBox = p.geti("ownbox", 1) != 0;
+  o.cachedDeriv = p.geti("cacheder", 0) != 0;
   long boxmask = p.geti("boxmask");
   for (int i = 0; i < MAXN; ++i) {
     std::string k = std::to_string(i);
@@ -178,11 +181,18 @@ public:
       if (cfg.ownBox && cfg.has[i]) ic.reset(new bpp::IntervalConstraint(cfg.lo[i], cfg.hi[i], true, true));
       addParameter_(new bpp::Parameter(vname(i), cfg.x0[i], ic));
     }
-    refresh();
+    refresh(); refreshTables();
   }
   SimObjective* clone() const override { return new SimObjective(*this); }
 
   void point(double* x) const { const bpp::ParameterList& pl = getParameters(); for (int i = 0; i < cfg.n; ++i) x[i] = pl[static_cast<size_t>(i)].getValue(); }
+  double g1[MAXN], g2[MAXN][MAXN]; bool g1Valid = false, g2Valid = false;
+  void refreshTables() {
+    if (!cfg.cachedDeriv) return;
+    double x[MAXN]; point(x);
+    if (d1On) { for (int i = 0; i < cfg.n; ++i) g1[i] = gradObj(cfg, x, i); g1Valid = true; }
+    if (d2On) { for (int i = 0; i < cfg.n; ++i) for (int j = 0; j < cfg.n; ++j) g2[i][j] = hessObj(cfg, x, i, j); g2Valid = true; }
+  }
   void refresh() { double x[MAXN]; point(x); fval = evalObj(cfg, x); }
   void recordEval() {
     if (fval < bestF) { bestF = fval; lastImprove = nEval + 1; }
@@ -198,9 +208,10 @@ public:
     inSet = true;
     try { matchParametersValues(pl); } catch (...) { inSet = false; ++rejected; throw; }
     inSet = false;
+    refreshTables();          // like the numerical-derivative wrappers: every setParameters call re-tabulates, whether or not a value changed
     recordEval();
   }
-  void fireParameterChanged(const bpp::ParameterList&) override { refresh(); if (!inSet) recordEval(); }
+  void fireParameterChanged(const bpp::ParameterList&) override { refresh(); if (!inSet) { refreshTables(); recordEval(); } }
   double getValue() const override { return fval; }
 
   void enableFirstOrderDerivatives(bool yn) override { d1On = yn; }
@@ -210,11 +221,13 @@ public:
   int idx(const std::string& v) const { int i = vindex(v); if (i < 0 || i >= cfg.n) throw bpp::Exception("SimObjective: no such variable " + v); return i; }
   double getFirstOrderDerivative(const std::string& v) const override {
     if (!d1On) throw bpp::Exception("SimObjective: first order derivatives are not computed");
+    if (cfg.cachedDeriv) { if (!g1Valid) throw bpp::Exception("SimObjective: first order derivatives were never tabulated"); return g1[idx(v)]; }
     double x[MAXN]; point(x); return gradObj(cfg, x, idx(v));
   }
   double getSecondOrderDerivative(const std::string& v) const override { return getSecondOrderDerivative(v, v); }
   double getSecondOrderDerivative(const std::string& v, const std::string& u) const override {
     if (!d2On) throw bpp::Exception("SimObjective: second order derivatives are not computed");
+    if (cfg.cachedDeriv) { if (!g2Valid) throw bpp::Exception("SimObjective: second order derivatives were never tabulated"); return g2[idx(v)][idx(u)]; }
     double x[MAXN]; point(x); return hessObj(cfg, x, idx(v), idx(u));
   }
 };
@@ -530,7 +543,7 @@ public:
     ctx.custom = R.nEval;
     {
       static const char* OC[4] = {"returned", "constraint-exception", "exception", "eval-cap"};
-      std::string cfgs = std::string("cfg:") + O + ":" + PNAME[c.policy] + (oc.type ? ":logcosh" : ":quadratic") + ":n" + std::to_string(oc.n) + (oc.anyBox() ? (oc.ownBox ? ":box-own" : ":box-list") : ":nobox")
+      std::string cfgs = std::string("cfg:") + O + ":" + PNAME[c.policy] + (oc.type ? ":logcosh" : ":quadratic") + (oc.cachedDeriv ? ":tabulated-derivatives" : "") + ":n" + std::to_string(oc.n) + (oc.anyBox() ? (oc.ownBox ? ":box-own" : ":box-list") : ":nobox")
                          + (c.budget > 0 ? (cut ? ":budget-cut" : ":budget-not-reached") : ":nobudget") + ":stop" + std::to_string(c.stopType) + ":v" + std::to_string(c.verbose) + (R.tol ? ":tol" : ":notol") + ":" + OC[R.outcome];
       if (c.kind == O_META) cfgs += ":inner" + std::to_string(c.metaA) + (c.metaTypeA ? "f" : "s") + std::to_string(c.metaB) + (c.metaTypeB ? "f" : "s") + ":steps" + std::to_string(c.metaN);
       ctx.outcome(cfgs.c_str());
@@ -545,7 +558,10 @@ public:
       long capUsed = c.verbose > 0 ? EVAL_CAP_VERBOSE : EVAL_CAP;
       if (R.evalsInLastIteration > capUsed / 2)
         vfail("hang:eval-cap", "hang:eval-cap:" + O + capTrigger(), O + ": one iteration used more than " + std::to_string(capUsed / 2) + " objective evaluations (" + std::to_string(R.steps.size()) + " steps completed before)");
-      if (R.evalsSinceImprovement > capUsed / 2)
+      // Powell, the simplex and a meta-optimiser driving them stop on a RELATIVE function change, which is 0/0 once the value is exactly 0:
+      // with a minimum value of exactly 0 they legitimately run on until their own budget (1e6 steps) — inconclusive, not a violation
+      bool relativeStopUndefined = oc.c == 0 && (c.kind == O_POWELL || c.kind == O_DSM || c.kind == O_META);
+      if (R.evalsSinceImprovement > capUsed / 2 && !relativeStopUndefined)
         vfail("hang:eval-cap", "hang:eval-cap:" + O + ":stagnant" + capTrigger(), O + ": still running after " + std::to_string(R.nEval) + " objective evaluations, the last " + std::to_string(R.evalsSinceImprovement) + " of them without any improvement of the best value seen (" + std::to_string(R.steps.size()) + " steps completed)");
       ctx.probe("eval-cap-inconclusive"); ctx.outcome("inconclusive"); return;
     }
@@ -800,7 +816,8 @@ public:
     i.tolerances["consistency"] = "optimize() == getFunctionValue() == objective at getParameters(): exact (same deterministic evaluator); objective's own parameters == getParameters(): exact";
     i.tolerances["convergence"] = "max-norm distance to the minimiser <= K * (D + floor); D = sqrt(2 tol / lmin) for absolute function-change stop conditions (Bfgs, ConjugateGradient, Simple*, Newton1D, Meta), sqrt(2 tol |fmin| / lmin) for the relative ones (Powell, DownhillSimplex), tol * |xmin| + 1e-10 for Brent / golden section; floor = sqrt(128 eps max(|fmin|, 1e-300) / lmin) + 64 eps |xmin|; lmin = smallest eigenvalue (curvature along the coordinate for 1-D optimisers); K = Bfgs 1e5, ConjugateGradient 500, Powell 3000, DownhillSimplex 5000 / 1e5 / 3e5 / 3e6 for dimensions 1 / 2-4 / 5 / 6, SimpleMulti/SimpleNewtonMulti 1000, Brent/BrentInward/GoldenSection 50, Newton1D 1e-6, Meta 1e5: each >= 100 x the worst ratio of 130 000 runs of the unchanged tree";
     i.tolerances["bracket-ties"] = "abscissae closer than 64 eps * max|x| count as equal when naming the middle point (rounding of the inward scan)";
-    i.assumptions = {
+    i.assumptions = {"a run that reaches the harness's evaluation cap without progress is reported (stagnant) except for Powell / simplex / meta configurations on an objective whose minimum value is exactly 0, where the relative stop test is 0/0 and the run legitimately continues to its own budget",
+                     
       "monotone decrease step by step, iteration counts, behaviour with a listener that modifies parameters or an objective returning NaN / raising: not asserted",
       "an exception derived from bpp::Exception leaving init()/optimize() is an accepted outcome (the interface documents it); under CONSTRAINTS_KEEP / CONSTRAINTS_IGNORE this includes ConstraintException when a step leaves the box; under CONSTRAINTS_AUTO a ConstraintException is a violation of the feasibility clause",
       "budget clause, as observable: for optimisers driven by AbstractOptimizer::optimize (all of them) the listener sees getNumberOfEvaluations() after each step; step j+1 was started with that value + 1, which must be < nbEvalMax for every step that was started; optimize() may only return with tolerance not reached when the counter is >= nbEvalMax.  The counter is the optimiser's own (it adds the inner line searches' counters, not objective calls)",
@@ -870,6 +887,7 @@ public:
     if (dsmArmB) { std::string k = std::to_string(rng.below(n)); p.cfgd["x" + k] = p.cfgd["hi" + k]; }
     p.cfg["boxmask"] = mask;
     p.cfg["ownbox"] = rng.chance(0.6) ? 1 : 0;
+    p.cfg["cacheder"] = rng.chance(0.35) ? 1 : 0;
     p.cfg["policy"] = static_cast<long>(rng.weighted({5, 3, 2}));
     p.cfgd["tol"] = rng.logUniform(1e-10, 1e-4);
     p.cfg["stop"] = static_cast<long>(rng.weighted({7, 2, 1}));
